@@ -1193,7 +1193,7 @@ class ReferenceResolver:
         Returns:
             True (has unresolved crossrefs) or False (else)
         """
-        if get_model(obj) != self.model:
+        if get_model(obj) is not self.model:
             return get_model(obj)._tx_reference_resolver.has_unresolved_crossrefs(obj)
         else:
             for crossref_obj, attr, _ in self.parser._crossrefs:
@@ -1219,7 +1219,7 @@ class ReferenceResolver:
         # -------------------------
         default_scope = DefaultScopeProvider()
         for obj, attr, crossref in current_crossrefs:
-            if get_model(obj) == self.model:
+            if get_model(obj) is self.model:
                 attr_value = getattr(obj, attr.name)
                 attr_refs = [
                     obj.__class__.__name__ + "." + attr.name,
